@@ -5,6 +5,7 @@ import BigtreeProofs.Lemmas.ModifyMerge
 import BigtreeProofs.Lemmas.ModifyReplace
 import BigtreeProofs.Lemmas.ModifyLeaves
 import BigtreeProofs.Lemmas.ModifyFrame
+import BigtreeProofs.Lemmas.ModifyFrameReplace
 /-!
 # C08 — shift / copy / replace perform exactly the documented edit and nothing else
 
@@ -1097,5 +1098,31 @@ example : copyOrShift (cfgOf true false false true false true true) (st0 exTree3
 -- the entries outside `/r/a` and `/r/b/a`: the root, `b`, `c`
 example : (flat exTree3).filter (fun e => !touched (some [['a']]) (some [['b'], ['a']]) e)
     = [([], 0, []), ([['b']], 4, []), ([['c']], 7, [])] := by decide +kernel
+
+/-! ### the same for `replace_logic` (shift_and_replace_nodes, copy_and_replace_nodes_from_tree_to_tree)
+
+The re-append loop permutes siblings in its intermediate states, so the statement is about sub-multisets
+(`List.Subperm`, written `<+~`): every old entry that lies neither below the from-node (same-tree shift)
+nor below the replaced node occurs in the result with at least its multiplicity. -/
+
+theorem replace_frame_all_flags_step (cfg : Cfg) (st st' : St) (pr : Str × Option Str) (fp : List Str)
+    (F : Tree) (hres : resolveFrom cfg st pr.1 = .ok (some (fp, F)))
+    (h : stepReplace cfg st pr = .ok st') :
+    List.Subperm ((flat st.dst).filter (fun e =>
+      !touched (if st.src.isNone && !cfg.copy then some fp else none) (replHandle cfg st pr.2) e))
+      (flat st'.dst) :=
+  Modify.stepReplace_sub hres h
+
+theorem replace_frame_all_flags_mem (cfg : Cfg) (st st' : St) (pr : Str × Option Str) (fp : List Str)
+    (F : Tree) (hres : resolveFrom cfg st pr.1 = .ok (some (fp, F)))
+    (h : stepReplace cfg st pr = .ok st') (e : Entry) (he : e ∈ flat st.dst)
+    (hout : touched (if st.src.isNone && !cfg.copy then some fp else none) (replHandle cfg st pr.2) e = false) :
+    e ∈ flat st'.dst :=
+  (replace_frame_all_flags_step cfg st st' pr fp F hres h).subset (List.mem_filter.2 ⟨he, by rw [hout]; rfl⟩)
+
+-- non-vacuity: the first pair of the example above (`/a/y/q` replaces `/a/D` in `exRep`) with delete_children
+example : (stepReplace (cfgOf false false false false false true true) (st0 exRep 8)
+      (pathStr '/' ['a'] [['y'], ['q']], some (pathStr '/' ['a'] [['D']]))).toOption.isSome = true := by
+  decide +kernel
 
 end C08
